@@ -502,8 +502,12 @@ func normalizeValue(
 
 		return normalizeStructValue(opts, ctx, v)
 	default:
-		if v.IsNil() {
-			return &cfgNil{cfgPrimitive{ctx, opts.meta}}, nil
+		switch v.Kind() {
+		case reflect.Chan, reflect.Func, reflect.Interface, reflect.Ptr, reflect.UnsafePointer:
+			// only these kinds can be nil (maps and slices are handled above)
+			if v.IsNil() {
+				return &cfgNil{cfgPrimitive{ctx, opts.meta}}, nil
+			}
 		}
 		return nil, raiseUnsupportedInputType(ctx, opts.meta, v)
 	}
